@@ -21,7 +21,9 @@ const (
 	pebblePath = "github.com/cockroachdb/pebble"
 )
 
-func init() { register("C09", "range reads sorted, bounded, truthful about more, lossless paging", checkC09) }
+func init() {
+	register("C09", "range reads sorted, bounded, truthful about more, lossless paging", checkC09)
+}
 
 var pebbleNewIter = []string{
 	"(github.com/cockroachdb/pebble.Reader).NewIter",
